@@ -125,6 +125,12 @@ fn operand(form: Form, side: &str, val: &Option<J>, alt_spelling: u32) -> Option
                 2 if i.abs() < 1_000_000 => NumLit { text: format!("{}e0", i), val: *i as f64, int_text: false },
                 _ => num_lit_int(*i),
             }),
+            // a literal beyond the range of f64: mathematically above (below) every double
+            Some(J::Float(f)) if f.is_infinite() => Lit::Num(NumLit {
+                text: format!("{}{}", if *f < 0.0 { "-" } else { "" }, ["1e400", "1E+999", "18e307", "2.5e+308", "1.0e309"][(alt_spelling % 5) as usize]),
+                val: *f,
+                int_text: false,
+            }),
             Some(J::Float(f)) => Lit::Num(if f.fract() == 0.0 && f.abs() < 1e6 && !(*f == 0.0 && f.is_sign_negative()) && alt_spelling % 2 == 1 {
                 num_lit_int(*f as i64)
             } else {
@@ -281,6 +287,7 @@ fn has_escape_cell(a: &Cmpable, b: &Cmpable) -> bool {
 fn show(v: &Option<J>) -> String {
     match v {
         None => "Nothing".to_string(),
+        Some(J::Float(f)) if f.is_infinite() => format!("the literal {}1e400", if *f < 0.0 { "-" } else { "" }),
         Some(j) => j.text(),
     }
 }
@@ -491,6 +498,25 @@ fn next_up(f: f64) -> f64 {
     f64::from_bits(if f > 0.0 { b + 1 } else { b - 1 })
 }
 
+/// number literals beyond the range of f64 (`1e400`, `-18e307`): valid spellings of numbers above (below)
+/// every double, against every kind of value and against each other
+fn random_overflow_literals(src: &mut Src, obs: &mut Obs) -> Res {
+    let a = Some(J::Float(if src.chance(1, 3) { f64::NEG_INFINITY } else { f64::INFINITY }));
+    let u = universe();
+    let (b, fb) = if src.chance(1, 8) {
+        (Some(J::Float(if src.bool() { f64::NEG_INFINITY } else { f64::INFINITY })), Form::Literal)
+    } else {
+        (src.pick(&u).clone(), *src.pick(&FORMS))
+    };
+    obs.label("literal-beyond-f64-range");
+    let alt = src.below(30) as u32;
+    if src.bool() {
+        check_cell(&a, &b, Form::Literal, fb, alt, obs)
+    } else {
+        check_cell(&b, &a, fb, Form::Literal, alt, obs)
+    }
+}
+
 /// two integers beyond 2^53 that are neighbours (equal as doubles), through every operator
 fn random_big_integers(src: &mut Src, obs: &mut Obs) -> Res {
     let mag: i64 = match src.below(4) {
@@ -665,6 +691,7 @@ pub fn prop() -> Prop {
             Sub { name: "random-wide", kind: Kind::Random { f: random_wide, quick: 16_000, thorough: 320_000, len: 900 } },
             Sub { name: "random-deep", kind: Kind::Random { f: random_deep, quick: 100_000, thorough: 2_000_000, len: 300 } },
             Sub { name: "random-numbers", kind: Kind::Random { f: random_numbers, quick: 100_000, thorough: 2_000_000, len: 32 } },
+            Sub { name: "random-overflow-literals", kind: Kind::Random { f: random_overflow_literals, quick: 20_000, thorough: 400_000, len: 32 } },
             Sub { name: "random-big-integers", kind: Kind::Random { f: random_big_integers, quick: 40_000, thorough: 800_000, len: 32 } },
             Sub { name: "random-escaped-names", kind: Kind::Random { f: random_escaped_names, quick: 40_000, thorough: 800_000, len: 100 } },
             Sub { name: "random-escaped-literals", kind: Kind::Random { f: random_escaped_literals, quick: 40_000, thorough: 800_000, len: 64 } },
